@@ -1,7 +1,7 @@
 (* C04 Aggregations group, label and reduce exactly as the reference engine.
-   Property theorems only; proofs in AggProofs.v. Partial: see the note below. *)
+   Property theorems only; proofs in AggProofs.v and TopkProofs.v. Partial: see the note at the end. *)
 From Coq Require Import List ZArith NArith Bool.
-From Verif Require Import Base Agg AggProofs.
+From Verif Require Import Base Agg AggProofs Topk TopkProofs.
 Import ListNotations.
 Close Scope Z_scope.
 
@@ -45,8 +45,48 @@ Example C04_example :
   fst (assign_groups (map (group_labels true [2%N]) [l1; l2; l3]) []) = [0; 0; 1].
 Proof. repeat split; vm_compute; reflexivity. Qed.
 
+(* topk / bottomk (Topk.v models kAggregate.aggregate; compared with the real
+   operator on every run). For any comparison that is a strict weak order on
+   the non-NaN values and false on NaN (IEEE <, or > for bottomk), any k >= 1
+   and any samples of a group with distinct IDs: what the group emits is a
+   sublist of its samples without repetition, min(k, n) of them, and no dropped
+   sample is strictly better than an emitted one (NaN counts as worst). Which of
+   several equal samples is kept is not determined (nor is it by the reference). *)
+Theorem C04_topk_group :
+  forall (V : Type) (lt : V -> V -> bool) (isnan : V -> bool),
+  (forall a b, isnan b = true -> lt a b = false) ->
+  (forall a, lt a a = false) ->
+  (forall a b c, lt a b = true -> lt b c = true -> lt a c = true) ->
+  (forall a b c, isnan c = false -> lt a b = true -> lt a c = true \/ lt c b = true) ->
+  forall k samples, 1 <= k -> NoDup (map fst samples) ->
+  incl (topk_group V lt isnan k samples) samples /\
+  NoDup (map fst (topk_group V lt isnan k samples)) /\
+  length (topk_group V lt isnan k samples) = Nat.min k (length samples) /\
+  forall x y, In x (topk_group V lt isnan k samples) -> In y samples -> ~ In y (topk_group V lt isnan k samples) ->
+              worse V lt isnan (snd x) (snd y) = false.
+Proof. exact topk_group_spec. Qed.
+Print Assumptions C04_topk_group.
+
+(* the hypotheses are satisfiable: integers with no NaN, topk and bottomk *)
+Theorem C04_topk_group_Z : forall k samples, 1 <= k -> NoDup (map fst samples) ->
+  length (topk_group Z Z.ltb (fun _ => false) k samples) = Nat.min k (length samples) /\
+  (forall x y, In x (topk_group Z Z.ltb (fun _ => false) k samples) -> In y samples ->
+               ~ In y (topk_group Z Z.ltb (fun _ => false) k samples) -> (snd y <= snd x)%Z) /\
+  (forall x y, In x (topk_group Z (fun a b => Z.ltb b a) (fun _ => false) k samples) -> In y samples ->
+               ~ In y (topk_group Z (fun a b => Z.ltb b a) (fun _ => false) k samples) -> (snd x <= snd y)%Z).
+Proof. exact topk_group_Z. Qed.
+Print Assumptions C04_topk_group_Z.
+
+Example C04_topk_example :
+  topk_group Z Z.ltb (fun _ => false) 2 [(0, 5%Z); (1, 9%Z); (2, 7%Z); (3, 1%Z)] = [(1, 9%Z); (2, 7%Z)] /\
+  topk_step Z Z.ltb (fun _ => false) 1 [0; 1; 0; 1] 2 [(0, 5%Z); (1, 9%Z); (2, 7%Z); (3, 1%Z)] = [(2, 7%Z); (1, 9%Z)] /\
+  topk_step Z Z.ltb (fun _ => false) 0 [0; 1; 0; 1] 2 [(0, 5%Z); (1, 9%Z)] = [].
+Proof. repeat split; vm_compute; reflexivity. Qed.
+
 (* PARTIAL. Proved for every accumulator (sum, min, max, avg, count, group,
    stddev, stdvar, quantile are instances of [empty]/[add]): grouping, per-step
-   membership, reset locality, parameter taken per step. Not proved: equality of
-   each accumulator's floating-point value with the reference engine's (decided
-   by the reference oracle), and topk/bottomk heap membership. *)
+   membership, reset locality, parameter taken per step; for topk/bottomk the
+   selection per group. Not proved: equality of each accumulator's
+   floating-point value with the reference engine's (decided by the reference
+   oracle); the strict-weak-order hypotheses of C04_topk_group for IEEE doubles
+   are assumed of the hardware comparison, not derived. *)
